@@ -14,6 +14,7 @@ TECHNIQUE = (
     "alphabet (consecutive cites with/without names, parallel cites, leading years, nested parentheticals) and all "
     "<=2 fragment edits of templates; every textual metadata value checked against the citation's extent"
 )
+TECHNIQUE += "; " + 'also: every filler length around the 300-character window, transform-sensitive fragments, post-citation products; a subset again under python -O'
 RULE = (
     "documents = all concatenations of <=k fragments of A2; plus fragment-edit mutations of 4 templates; plus 9 forms whose "
     "name/antecedent or post-citation material is separated from the citation by filler prose of EVERY length in a range "
